@@ -53,6 +53,7 @@ STANDINS = {
     "C11": [{"mirror": "corpus", "trait": "symmetry"}],
     "C12": [{"mirror": "corpus", "trait": "minmax_chains"}],
     "C13": [{"mirror": "corpus", "trait": "sum_chains"}],
+    "C14": [{"mirror": "corpus", "trait": "math"}, {"mirror": "to_sympy"}],
     "C16": [{"mirror": "corpus", "trait": "projection"}],
     "C18": [{"mirror": "auto_detect_bounded"}],
     "C19": [{"mirror": "verify_enable_bounded"}, {"mirror": "main_wiring"}, {"mirror": "predicate_list_bounded"}],
